@@ -962,7 +962,7 @@ func (in *Interp) callSSA(fr *frame, fn *ssa.Function, args []value, env []value
 		return h(fr, fn, args)
 	}
 	if fn.Blocks == nil {
-		panic(unsupported("external function without model: " + fn.String() + " called at " + fr.pos()))
+		panic(unsupported("external function without model: " + fn.String() + " called at " + in.where()))
 	}
 	return in.callFunction(fr, fn, args, env)
 }
